@@ -1,16 +1,16 @@
 // C06 — server survives arbitrary input and disconnects, cleaning up exactly once.
 //
 // Monitors (all over a real imapserver connection with a recording stub backend):
-//  * fault enumeration: for each valid multi-command transcript, the connection
-//    is cut at EVERY byte offset of the client->server stream (clean EOF and
-//    reset) and at every byte offset of the server->client stream (write
-//    error); after each cut the server must close its side, call Session.Close
-//    exactly once, stop its idle goroutine and log no panic;
-//  * hostile inputs: grammar-generated, mutated and garbage commands, deep
-//    nesting families (run with a 64 MB stack bound: unbounded recursion kills the
-//    worker, which the supervisor reports), literal size caps (no buffered
-//    argument > 4096 bytes from a literal, no Append call and no '+' above the
-//    APPEND limit).
+//   - fault enumeration: for each valid multi-command transcript, the connection
+//     is cut at EVERY byte offset of the client->server stream (clean EOF and
+//     reset) and at every byte offset of the server->client stream (write
+//     error); after each cut the server must close its side, call Session.Close
+//     exactly once, stop its idle goroutine and log no panic;
+//   - hostile inputs: grammar-generated, mutated and garbage commands, deep
+//     nesting families (run with a 64 MB stack bound: unbounded recursion kills the
+//     worker, which the supervisor reports), literal size caps (no buffered
+//     argument > 4096 bytes from a literal, no Append call and no '+' above the
+//     APPEND limit).
 package main
 
 import (
